@@ -350,8 +350,8 @@ def _install_cheap_ec(paranoid):
   from paranoid_crypto.lib import ec_aggregate_checks
   paranoid.GetECAllChecks()
   cheap = ec_aggregate_checks.CheckECKeySmallDifference(max_diff=EC_MAX_DIFF_QUICK)
-  for key in ('ec_aggregates', 'ec_all'):
-    if 'CheckECKeySmallDifference' in paranoid._check_factory[key]:
+  for key in (getattr(paranoid, '_EC_AGGREGATES', 'ec_aggregates'), getattr(paranoid, '_EC_ALL', 'ec_all')):
+    if 'CheckECKeySmallDifference' in paranoid._check_factory.get(key, {}):
       paranoid._check_factory[key]['CheckECKeySmallDifference'] = cheap
 
 
@@ -437,12 +437,50 @@ def run_scenario(args):
     return sid, [], traceback.format_exc()
 
 
+CROSS_CLASSES = {'rsa': {'s1': 'healthy', 's2': 'small', 's3': 'sharedA', 's4': 'sharedB'},
+                 'ec': {'s1': 'healthy', 's2': 'weakprivate', 's3': 'healthy384'},
+                 'ecdsa': {'s1': 'healthyA', 's2': 'msbA'}}
+
+
+def run_cross(args):
+  """One process, the three entry points one after the other (the registries of the three artifact kinds are process-wide state)."""
+  sid, order, seed, cheap_ec = args
+  try:
+    rng = random.Random('%s-%s' % (sid, seed))
+    max_diff = EC_MAX_DIFF_QUICK if cheap_ec else 2 ** 24
+    built = {}
+    recs = []
+    for ci, kind in enumerate(order):
+      paranoid, registry, entry = _registry(kind, cheap_ec)
+      if kind not in built:
+        if kind == 'rsa':
+          built[kind] = [v for _, v in sorted(make_rsa(rng, CROSS_CLASSES[kind]).items())]
+        elif kind == 'ec':
+          built[kind] = [v for _, v in sorted(make_ec(rng, CROSS_CLASSES[kind]).items())]
+        else:
+          built[kind] = [a for _, g in sorted(make_ecdsa(rng, CROSS_CLASSES[kind]).items()) for a in g]
+      batch = built[kind]
+      protos = [a.proto for a in batch]
+      crit = crit_for(kind, batch, max_diff)
+      rec = checks.record_call('%s-c%d' % (sid, ci), kind, batch, lambda: entry(protos), None, crit)
+      rec['scenario'] = {'classes': CROSS_CLASSES[kind], 'call': {'all': True, 'check': 'ALL', 'kind': kind, 'entry_points_before': list(order[:ci])},
+                         'n': len(batch)}
+      recs.append(rec)
+    return sid, recs, None
+  except Exception:  # pylint: disable=broad-except
+    return sid, [], traceback.format_exc()
+
+
+def run_any(args):
+  return run_cross(args[1:]) if args[0] == 'cross' else run_scenario(args)
+
+
 def run_parallel(jobs, procs=14, timeout=3600):
   """jobs: list of run_scenario args. Fresh worker per job (maxtasksperchild=1) keeps curve tables from piling up."""
   from pv import proc
   out = []
   t0 = time.time()
-  for res in proc.imap_unordered(run_scenario, jobs, procs=min(procs, max(1, len(jobs)))):
+  for res in proc.imap_unordered(run_any, jobs, procs=min(procs, max(1, len(jobs)))):
     out.append(res)
     if time.time() - t0 > timeout:
       raise tlc.MachineryError('scenario replay exceeded %ss' % timeout)
